@@ -5,6 +5,9 @@ CONSTANTS
   Forms = {"lit", "ref", "rl", "cc"}
   OpenKinds = {"open", "openC", "openU"}
   Kinds = {"enumE", "enumI", "const", "macroP", "macroB", "array"}
+  TTypes = {}
+  TInits = {}
+  MaxT = 0
   MaxDecls = 3
   MaxEnums = 1
 INVARIANT ImplicitOK
@@ -13,5 +16,6 @@ INVARIANT SpliceOK
 INVARIANT NestingOK
 INVARIANT MuOK
 INVARIANT RangeOK
+INVARIANT TConstOK
 CONSTRAINT DumpConstraint
 CHECK_DEADLOCK FALSE
